@@ -1,3 +1,538 @@
-//! C18 — not built yet.
-pub const BUILT: bool = false;
-pub fn run(_rep: &mut vx::Report) {}
+//! C18 — page-tree navigation follows document order and inheritance (ISO 32000-1 §7.7.3).
+//!
+//! Space (fully enumerated; attribute placement under a deviation bound):
+//!  * `wellformed`: every ordered tree with ≤ N nodes (N = 5 quick / 7 thorough) whose root is a
+//!    /Pages node and whose other nodes are pages or /Pages nodes (a childless /Pages node is an
+//!    empty subtree) × kids arrays {direct with per-node deviations to indirect, all indirect}
+//!    × DEV(2) placement of /MediaBox /CropBox /Rotate /Resources on any node (root always carries
+//!    a base /MediaBox and /Resources so that every file is valid) × presets inside.
+//!  * `malformed`: the same trees × kids {direct, indirect} × every single malformation from
+//!    {wrong /Count on one /Pages node: +1, −1, 0, 9999999999; one node listed as a kid of a second
+//!    parent; one /Pages node listed among the kids of itself or of a descendant (cycle)}.
+//! Oracle: own model of the generated tree (document-order leaves; nearest ancestor-or-self
+//! that sets an attribute); refpdf::file::PdfFile::pages() must agree with the model on every
+//! well-formed file first. Malformed trees: every call returns (Ok or Err) within the deadline
+//! and does not panic — nothing more is demanded.
+use crate::util::objcmp;
+use oxidize_pdf::parser::{ParseOptions, PdfDocument, PdfReader};
+use refpdf::builder::{FileBuilder, Revision, XrefForm};
+use refpdf::file::PdfFile;
+use refpdf::syntax::Obj;
+use serde_json::json;
+use std::io::Cursor;
+use std::time::Duration;
+use vx::{Ctx, Explore, Report};
+
+pub const BUILT: bool = true;
+
+const ATTRS: [&str; 4] = ["MediaBox", "CropBox", "Rotate", "Resources"];
+const DEADLINE: Duration = Duration::from_secs(30);
+
+#[derive(Clone, Debug)]
+struct Node {
+    is_pages: bool,
+    parent: Option<usize>,
+    kids: Vec<usize>,
+    /// extra kid references appended by a malformation (node indices)
+    extra_kids: Vec<usize>,
+    set: [bool; 4],
+    kids_indirect: bool,
+    count_override: Option<i64>,
+}
+
+fn num(i: usize) -> u32 {
+    2 + i as u32
+}
+fn kids_obj_num(i: usize) -> u32 {
+    30 + i as u32
+}
+
+fn int_arr(v: [i64; 4]) -> Obj {
+    Obj::Array(v.iter().map(|x| Obj::Int(*x)).collect())
+}
+fn attr_value(a: usize, i: usize) -> Obj {
+    let k = i as i64;
+    match a {
+        0 => int_arr([0, 0, 100 + k, 200 + k]),
+        1 => int_arr([1, 1, 50 + k, 60 + k]),
+        2 => Obj::Int(90 * (k + 1)),
+        _ => Obj::dict(vec![
+            ("ProcSet", Obj::Array(vec![Obj::name("PDF"), Obj::name("Text")])),
+            ("ExtGState", Obj::dict(vec![("GS0", Obj::dict(vec![("LW", Obj::Int(k + 1))]))])),
+        ]),
+    }
+}
+
+/// Every ordered tree once: pre-order degree sequence, children typed when they are created.
+fn choose_tree(c: &mut Ctx, max_nodes: usize) -> Vec<Node> {
+    let blank = |is_pages: bool, parent: Option<usize>| Node { is_pages, parent, kids: vec![], extra_kids: vec![], set: [false; 4], kids_indirect: false, count_override: None };
+    let mut nodes = vec![blank(true, None)];
+    fn expand(c: &mut Ctx, nodes: &mut Vec<Node>, i: usize, max_nodes: usize, blank: &dyn Fn(bool, Option<usize>) -> Node) {
+        let rem = max_nodes - nodes.len();
+        let d = c.choose("n_kids", rem + 1);
+        let mut mine = Vec::new();
+        for _ in 0..d {
+            let is_pages = c.choose("kid_kind", 2) == 1;
+            nodes.push(blank(is_pages, Some(i)));
+            mine.push(nodes.len() - 1);
+        }
+        nodes[i].kids = mine.clone();
+        for k in mine {
+            if nodes[k].is_pages {
+                expand(c, nodes, k, max_nodes, blank);
+            }
+        }
+    }
+    expand(c, &mut nodes, 0, max_nodes, &blank);
+    nodes
+}
+
+fn leaves_under(nodes: &[Node], i: usize, out: &mut Vec<usize>) {
+    if !nodes[i].is_pages {
+        out.push(i);
+        return;
+    }
+    for &k in &nodes[i].kids {
+        leaves_under(nodes, k, out);
+    }
+}
+
+fn in_subtree(nodes: &[Node], root: usize, x: usize) -> bool {
+    let mut cur = Some(x);
+    while let Some(i) = cur {
+        if i == root {
+            return true;
+        }
+        cur = nodes[i].parent;
+    }
+    false
+}
+
+fn shape(nodes: &[Node], i: usize) -> String {
+    if !nodes[i].is_pages {
+        return format!("p{}", num(i));
+    }
+    format!("{}({})", num(i), nodes[i].kids.iter().map(|&k| shape(nodes, k)).collect::<Vec<_>>().join(" "))
+}
+
+fn build_file(nodes: &[Node]) -> Vec<u8> {
+    let mut r = Revision::new(XrefForm::Table);
+    r.add(1, Obj::dict(vec![("Type", Obj::name("Catalog")), ("Pages", Obj::Ref(num(0), 0))]));
+    for (i, n) in nodes.iter().enumerate() {
+        let mut d: Vec<(&str, Obj)> = Vec::new();
+        d.push(("Type", Obj::name(if n.is_pages { "Pages" } else { "Page" })));
+        if let Some(p) = n.parent {
+            d.push(("Parent", Obj::Ref(num(p), 0)));
+        }
+        if n.is_pages {
+            let kids: Vec<Obj> = n.kids.iter().chain(n.extra_kids.iter()).map(|&k| Obj::Ref(num(k), 0)).collect();
+            if n.kids_indirect {
+                r.add(kids_obj_num(i), Obj::Array(kids));
+                d.push(("Kids", Obj::Ref(kids_obj_num(i), 0)));
+            } else {
+                d.push(("Kids", Obj::Array(kids)));
+            }
+            let mut lv = Vec::new();
+            leaves_under(nodes, i, &mut lv);
+            d.push(("Count", Obj::Int(n.count_override.unwrap_or(lv.len() as i64))));
+        }
+        if i == 0 {
+            // base values at the root keep every file valid (both are required, inheritable)
+            if !n.set[0] {
+                d.push(("MediaBox", int_arr([0, 0, 222, 333])));
+            }
+            if !n.set[3] {
+                d.push(("Resources", Obj::dict(vec![("ProcSet", Obj::Array(vec![Obj::name("PDF")]))])));
+            }
+        }
+        for a in 0..4 {
+            if n.set[a] {
+                d.push((ATTRS[a], attr_value(a, i)));
+            }
+        }
+        r.add(num(i), Obj::dict(d));
+    }
+    let mut fb = FileBuilder::new(1);
+    fb.revisions.push(r);
+    fb.build().bytes
+}
+
+#[derive(Clone, Debug, PartialEq)]
+struct PageView {
+    obj: u32,
+    media_box: Option<[f64; 4]>,
+    crop_box: Option<[f64; 4]>,
+    rotate: i64,
+    resources: Option<Vec<u8>>,
+}
+
+fn rect_of(o: &Obj) -> Option<[f64; 4]> {
+    refpdf::file::rect(o)
+}
+
+/// The model: document-order pages with the nearest ancestor-or-self value of each attribute.
+fn model_pages(nodes: &[Node]) -> Vec<PageView> {
+    let mut lv = Vec::new();
+    leaves_under(nodes, 0, &mut lv);
+    lv.iter()
+        .map(|&l| {
+            let nearest = |a: usize| -> Option<Obj> {
+                let mut cur = Some(l);
+                while let Some(i) = cur {
+                    if nodes[i].set[a] {
+                        return Some(attr_value(a, i));
+                    }
+                    cur = nodes[i].parent;
+                }
+                match a {
+                    0 => Some(int_arr([0, 0, 222, 333])),
+                    3 => Some(Obj::dict(vec![("ProcSet", Obj::Array(vec![Obj::name("PDF")]))])),
+                    _ => None,
+                }
+            };
+            PageView {
+                obj: num(l),
+                media_box: nearest(0).and_then(|o| rect_of(&o)),
+                crop_box: nearest(1).and_then(|o| rect_of(&o)),
+                rotate: nearest(2).and_then(|o| o.as_int()).unwrap_or(0),
+                resources: nearest(3).map(|o| objcmp::canon(&o)),
+            }
+        })
+        .collect()
+}
+
+fn reference_pages(bytes: &[u8]) -> Result<Vec<PageView>, String> {
+    let f = PdfFile::parse(bytes)?;
+    let issues = refpdf::file::validate_file(&f);
+    if !issues.is_empty() {
+        return Err(format!("strict validator: {issues:?}"));
+    }
+    Ok(f.pages()?
+        .iter()
+        .map(|p| PageView {
+            obj: p.obj.unwrap_or(0),
+            media_box: p.media_box(),
+            crop_box: p.crop_box(),
+            rotate: p.rotate(),
+            resources: p.resources().map(objcmp::canon),
+        })
+        .collect())
+}
+
+/// What the library reports for one file under one preset.
+#[derive(Clone, Debug)]
+struct LibView {
+    open: Result<(), String>,
+    reader_count: Option<Result<u32, String>>,
+    doc_count: Option<Result<u32, String>>,
+    pages: Vec<Result<PageView, String>>,
+    /// get_page(page_count) — must not succeed on a well-formed tree
+    past_end: Option<Result<u32, String>>,
+    panic: Option<String>,
+}
+
+fn observe(bytes: Vec<u8>, opts: Option<ParseOptions>, cap: u32) -> LibView {
+    let mut v = LibView { open: Ok(()), reader_count: None, doc_count: None, pages: vec![], past_end: None, panic: None };
+    let r = vx::guard(|| {
+        let opened = match opts {
+            None => PdfReader::new(Cursor::new(bytes)),
+            Some(o) => PdfReader::new_with_options(Cursor::new(bytes), o),
+        };
+        let mut reader = match opened {
+            Ok(r) => r,
+            Err(e) => {
+                v.open = Err(e.to_string());
+                return;
+            }
+        };
+        v.reader_count = Some(reader.page_count().map_err(|e| e.to_string()));
+        let doc = PdfDocument::new(reader);
+        let dc = doc.page_count().map_err(|e| e.to_string());
+        v.doc_count = Some(dc.clone());
+        let n = dc.unwrap_or(0).min(cap);
+        for i in 0..n {
+            v.pages.push(doc.get_page(i).map_err(|e| e.to_string()).map(|p| PageView {
+                obj: p.obj_ref.0,
+                media_box: Some(p.media_box),
+                crop_box: p.crop_box,
+                rotate: p.rotation as i64,
+                resources: p.get_resources().map(|d| objcmp::canon_lib(&oxidize_pdf::parser::objects::PdfObject::Dictionary(d.clone()))),
+            }));
+        }
+        v.past_end = Some(doc.get_page(n).map(|p| p.obj_ref.0).map_err(|e| e.to_string()));
+    });
+    if let Err(p) = r {
+        v.panic = Some(p);
+    }
+    v
+}
+
+/// Machinery guard: run `f` on a helper thread owned by the calling explorer thread; None = it
+/// did not return within the deadline (the stuck helper is abandoned and replaced).
+type Job = Box<dyn FnOnce() + Send + 'static>;
+thread_local! {
+    static HELPER: std::cell::RefCell<Option<std::sync::mpsc::Sender<Job>>> = const { std::cell::RefCell::new(None) };
+}
+fn spawn_helper() -> std::sync::mpsc::Sender<Job> {
+    let (tx, rx) = std::sync::mpsc::channel::<Job>();
+    std::thread::Builder::new()
+        .stack_size(16 << 20)
+        .spawn(move || {
+            for job in rx {
+                job();
+            }
+        })
+        .expect("spawn watchdog helper thread");
+    tx
+}
+fn with_deadline<T: Send + 'static>(f: impl FnOnce() -> T + Send + 'static) -> Option<T> {
+    let (rtx, rrx) = std::sync::mpsc::channel::<T>();
+    let mut job: Option<Job> = Some(Box::new(move || {
+        let _ = rtx.send(f());
+    }));
+    HELPER.with(|h| {
+        let mut h = h.borrow_mut();
+        for _ in 0..2 {
+            if h.is_none() {
+                *h = Some(spawn_helper());
+            }
+            match h.as_ref().unwrap().send(job.take().unwrap()) {
+                Ok(()) => break,
+                Err(e) => {
+                    // helper gone: take the job back and start a new one
+                    job = Some(e.0);
+                    *h = None;
+                }
+            }
+        }
+    });
+    match rrx.recv_timeout(DEADLINE) {
+        Ok(v) => Some(v),
+        Err(_) => {
+            HELPER.with(|h| *h.borrow_mut() = None);
+            None
+        }
+    }
+}
+
+fn presets() -> [(&'static str, Option<ParseOptions>); 3] {
+    [("default", None), ("strict", Some(ParseOptions::strict())), ("lenient", Some(ParseOptions::lenient()))]
+}
+
+fn first_diff(want: &PageView, got: &PageView) -> Option<&'static str> {
+    if want.obj != got.obj {
+        return Some("page-object");
+    }
+    if want.media_box != got.media_box {
+        return Some("MediaBox");
+    }
+    if want.crop_box != got.crop_box {
+        return Some("CropBox");
+    }
+    if want.rotate != got.rotate {
+        return Some("Rotate");
+    }
+    if want.resources != got.resources {
+        return Some("Resources");
+    }
+    None
+}
+
+fn pv_json(p: &PageView) -> serde_json::Value {
+    json!({"obj": p.obj, "MediaBox": p.media_box, "CropBox": p.crop_box, "Rotate": p.rotate,
+           "Resources": p.resources.as_ref().map(|r| vx::show_bytes(r, 120))})
+}
+
+pub fn run(rep: &mut Report) {
+    crate::util::tune_malloc();
+    let thorough = rep.tier.is_thorough();
+    let max_nodes = if thorough { 7 } else { 5 };
+    rep.rule("case = one page tree (shape, node kinds, kids-array form, attribute placement or one malformation) opened under each preset; \
+              non-trivial = the tree has at least one page below a non-root /Pages node or an attribute placed off the page itself; distinct = distinct file bytes");
+    rep.assume("model: document order = depth-first order of /Kids; attribute = nearest ancestor-or-self that sets it (ISO 32000-1 7.7.3.4); \
+                refpdf::file::PdfFile::pages() and the strict validator must agree with the model on every well-formed file first");
+    rep.assume("malformed trees (wrong /Count, shared kid, cycle): only termination within the deadline without panic is demanded");
+    rep.assume("attribute values are direct objects; only /Kids is varied between direct and indirect");
+    rep.note("max_nodes", json!(max_nodes));
+    rep.note("deadline_s", json!(DEADLINE.as_secs()));
+
+    rep.explore("wellformed", Explore::dev(2), |c: &mut Ctx| {
+        let mut nodes = choose_tree(c, max_nodes);
+        let all_indirect = c.choose("kids_mode", 2) == 1;
+        for i in 0..nodes.len() {
+            if nodes[i].is_pages {
+                nodes[i].kids_indirect = if all_indirect { true } else { c.choose_dev("kids_indirect", 2) == 1 };
+            }
+            for a in 0..4 {
+                nodes[i].set[a] = c.choose_dev("attr", 2) == 1;
+            }
+        }
+        let bytes = build_file(&nodes);
+        c.input(vx::hbytes(&bytes));
+        let want = model_pages(&nodes);
+        let deep = want.iter().any(|p| nodes[(p.obj - 2) as usize].parent != Some(0));
+        let inherited = nodes.iter().any(|n| n.is_pages && n.set.iter().any(|s| *s));
+        if deep || inherited {
+            c.nontrivial();
+        }
+        let desc = format!(
+            "tree={} kids={} placed=[{}]",
+            shape(&nodes, 0),
+            if all_indirect { "all-indirect".to_string() } else { format!("indirect-at{:?}", nodes.iter().enumerate().filter(|(_, n)| n.kids_indirect).map(|(i, _)| num(i)).collect::<Vec<_>>()) },
+            nodes.iter().enumerate().flat_map(|(i, n)| (0..4).filter(move |a| n.set[*a]).map(move |a| format!("{}@{}", ATTRS[a], num(i)))).collect::<Vec<_>>().join(",")
+        );
+        match reference_pages(&bytes) {
+            Ok(rp) if rp == want => {}
+            other => {
+                c.fail("C18/harness-reference-reader-disagrees-with-model", format!("{desc}: model={want:?} reference={other:?}"));
+                return;
+            }
+        }
+        let mut oh = 0u64;
+        for (pname, opts) in presets() {
+            let b = bytes.clone();
+            let cap = want.len() as u32 + 2;
+            let Some(v) = with_deadline(move || observe(b, opts, cap)) else {
+                c.fail("C18/hang-on-wellformed-tree", format!("{desc} preset={pname}: no answer within {DEADLINE:?}"));
+                continue;
+            };
+            let ctx = format!("{desc} preset={pname}");
+            if let Some(p) = &v.panic {
+                c.fail(format!("C18/panic@{}", vx::panic_site(p)), format!("{ctx}: {p}"));
+                continue;
+            }
+            if let Err(e) = &v.open {
+                c.fail("C18/open-fails-on-wellformed-tree", format!("{ctx}: {e}"));
+                continue;
+            }
+            if v.reader_count != Some(Ok(want.len() as u32)) {
+                c.fail("C18/reader-page-count-wrong", format!("{ctx}: PdfReader::page_count want {} got {:?}", want.len(), v.reader_count));
+            }
+            if v.doc_count != Some(Ok(want.len() as u32)) {
+                c.fail("C18/document-page-count-wrong", format!("{ctx}: PdfDocument::page_count want {} got {:?}", want.len(), v.doc_count));
+            }
+            for (i, w) in want.iter().enumerate() {
+                match v.pages.get(i) {
+                    Some(Ok(g)) => {
+                        if let Some(what) = first_diff(w, g) {
+                            c.fail(format!("C18/get-page-wrong-{what}"), format!("{ctx}: page {i} want {} got {}", pv_json(w), pv_json(g)));
+                        }
+                    }
+                    Some(Err(e)) => c.fail("C18/get-page-fails-on-wellformed-tree", format!("{ctx}: page {i}: {e}")),
+                    None => {}
+                }
+            }
+            if v.doc_count == Some(Ok(want.len() as u32)) {
+                if let Some(Ok(o)) = &v.past_end {
+                    c.fail("C18/get-page-past-the-end-succeeds", format!("{ctx}: get_page({}) returned object {o}", want.len()));
+                }
+            }
+            oh = vx::hmix(oh, vx::h64(&format!("{:?}{:?}{:?}", v.doc_count, v.pages.iter().map(|p| p.as_ref().map(|p| p.obj).map_err(|_| 0)).collect::<Vec<_>>(), v.past_end.as_ref().map(|r| r.is_ok()))));
+        }
+        c.add_evaluations(2);
+        c.outcome(oh);
+        c.sample(json!({"case": desc, "pages": want.iter().map(pv_json).collect::<Vec<_>>(), "file_len": bytes.len()}));
+    });
+
+    rep.explore("malformed", Explore::full(), |c: &mut Ctx| {
+        let mut nodes = choose_tree(c, max_nodes);
+        let indirect = c.choose("kids_mode", 2) == 1;
+        for n in nodes.iter_mut() {
+            n.kids_indirect = indirect && n.is_pages;
+        }
+        // catalogue of single malformations of this tree
+        #[derive(Clone, Debug)]
+        enum M {
+            Count(usize, &'static str, i64),
+            Shared(usize, usize),
+            Cycle(usize, usize),
+        }
+        let mut menu: Vec<M> = Vec::new();
+        for i in 0..nodes.len() {
+            if nodes[i].is_pages {
+                let mut lv = Vec::new();
+                leaves_under(&nodes, i, &mut lv);
+                let right = lv.len() as i64;
+                for (name, v) in [("+1", right + 1), ("-1", right - 1), ("0", 0), ("huge", 9_999_999_999)] {
+                    if v != right {
+                        menu.push(M::Count(i, name, v));
+                    }
+                }
+            }
+        }
+        for x in 1..nodes.len() {
+            for q in 0..nodes.len() {
+                if nodes[q].is_pages && Some(q) != nodes[x].parent && !in_subtree(&nodes, x, q) {
+                    menu.push(M::Shared(x, q));
+                }
+            }
+        }
+        for x in 0..nodes.len() {
+            if nodes[x].is_pages {
+                for q in 0..nodes.len() {
+                    if nodes[q].is_pages && in_subtree(&nodes, x, q) {
+                        menu.push(M::Cycle(x, q));
+                    }
+                }
+            }
+        }
+        let m = menu[c.choose("malformation", menu.len())].clone();
+        let mdesc = match &m {
+            M::Count(i, name, v) => {
+                nodes[*i].count_override = Some(*v);
+                format!("/Count of {} is {name} ({v})", num(*i))
+            }
+            M::Shared(x, q) => {
+                nodes[*q].extra_kids.push(*x);
+                format!("{} also listed as kid of {}", num(*x), num(*q))
+            }
+            M::Cycle(x, q) => {
+                nodes[*q].extra_kids.push(*x);
+                format!("cycle: {} listed among the kids of {}", num(*x), num(*q))
+            }
+        };
+        let bytes = build_file(&nodes);
+        c.input(vx::hbytes(&bytes));
+        c.nontrivial();
+        let desc = format!("tree={} kids={} malformation: {mdesc}", shape(&nodes, 0), if indirect { "indirect" } else { "direct" });
+        // the file itself must be a structurally sound PDF (only the page tree is malformed)
+        match PdfFile::parse(&bytes) {
+            Ok(f) => {
+                let issues = refpdf::file::validate_file(&f);
+                if !issues.is_empty() {
+                    c.fail("C18/harness-file-not-structurally-valid", format!("{desc}: {issues:?}"));
+                    return;
+                }
+            }
+            Err(e) => {
+                c.fail("C18/harness-file-not-structurally-valid", format!("{desc}: {e}"));
+                return;
+            }
+        }
+        let mut oh = 0u64;
+        for (pname, opts) in presets() {
+            let b = bytes.clone();
+            let Some(v) = with_deadline(move || observe(b, opts, 16)) else {
+                c.fail("C18/hang-on-malformed-tree", format!("{desc} preset={pname}: no answer within {DEADLINE:?}"));
+                continue;
+            };
+            if let Some(p) = &v.panic {
+                c.fail(format!("C18/panic@{}", vx::panic_site(p)), format!("{desc} preset={pname}: {p}"));
+                continue;
+            }
+            oh = vx::hmix(
+                oh,
+                vx::h64(&format!(
+                    "{:?}|{:?}|{:?}|{:?}",
+                    v.open.is_ok(),
+                    v.reader_count.as_ref().map(|r| r.as_ref().ok()),
+                    v.doc_count.as_ref().map(|r| r.as_ref().ok()),
+                    v.pages.iter().map(|p| p.as_ref().map(|p| p.obj).map_err(|_| 0)).collect::<Vec<_>>()
+                )),
+            );
+        }
+        c.add_evaluations(2);
+        c.outcome(oh);
+        c.sample(json!({"case": desc, "file_len": bytes.len()}));
+    });
+}
